@@ -1196,14 +1196,11 @@ impl<A: Ar> Exec<A> {
             _ => opts.maybe_capacity(None),
         };
         let file_len_before = std::fs::metadata(&path).map(|m| m.len()).unwrap_or(0);
-        let r: std::io::Result<A> = unsafe {
-            match mode % 4 {
-                0 => opts.with_write(true).map_mut::<A, _>(&path),
-                1 => opts.with_write(true).map_copy::<A, _>(&path),
-                2 => opts.map::<A, _>(&path),
-                _ => opts.map_copy_read_only::<A, _>(&path),
-            }
-        };
+        let via_builder = (self.step + self.stats.reopens as usize) % 3 == 0;
+        let opts = if mode % 4 < 2 { opts.with_write(true) } else { opts };
+        // `create` on an existing file must open it as it is
+        let opts = if self.step % 4 == 1 { opts.with_create(true) } else { opts };
+        let r: std::io::Result<A> = open_file::<A>(opts, mode, &path, via_builder);
         self.stats.reopens += 1;
         let arena = match r {
             Ok(a) => a,
@@ -1324,6 +1321,18 @@ impl<A: Ar> Exec<A> {
         }
         let t0 = ST.with(|st| st.borrow().teardowns);
         let path = self.path.clone();
+        // A file-backed arena can still be observed after its last arena value is gone: through a second,
+        // read-only mapping of the same file (MAP_SHARED, coherent with the first). It is used to judge what the
+        // owned handles that outlive every arena value release.
+        let observer: Option<A> = match (&path, self.remove_on_drop, self.ro) {
+            (Some(p), false, false) => {
+                hook::set_mode(Mode::Off);
+                let o = unsafe { self.cfg.options().with_capacity(self.a().capacity() as u32).with_read(true).map::<A, _>(p) }.ok();
+                hook::set_mode(Mode::St);
+                o
+            }
+            _ => None,
+        };
         // borrowed handles must go before the arena values they borrow
         let mut i = 0;
         while i < self.live.len() {
@@ -1351,13 +1360,26 @@ impl<A: Ar> Exec<A> {
                 self.arenas[idx] = None;
             } else {
                 let mut l = self.live.remove(pick - na);
-                if order & 1 == 0 {
+                let detach = order & 1 == 0;
+                if detach {
                     l.h.0.detach_();
                 }
                 if let Some(id) = l.r.drop_id {
                     self.dropped_ids.push(id);
                 }
+                let (boff, bcap) = (l.r.boff, l.r.bcap);
+                let pre = observer.as_ref().map(|o| o.snap());
                 drop(l);
+                if let (Some(o), Some(pre)) = (observer.as_ref(), pre) {
+                    let post = o.snap();
+                    if detach {
+                        if pre != post {
+                            self.v("C13", "detached_released", format!("dropping a detached owned handle during teardown changed the arena: {} -> {}", pre.to_json(), post.to_json()));
+                        }
+                    } else {
+                        self.check_release("drop of an owned handle during teardown", &pre, &post, boff, bcap);
+                    }
+                }
             }
             let after = ST.with(|st| st.borrow().teardowns);
             let remaining_values = self.live_arenas() + self.live.iter().filter(|l| l.r.embeds == 1).count();
@@ -1376,6 +1398,7 @@ impl<A: Ar> Exec<A> {
             }
         }
         hook::set_mode(Mode::Off);
+        drop(observer);
         let total = ST.with(|st| st.borrow().teardowns) - t0;
         if !self.dead && total != 1 {
             self.v("C13", "teardown_count", format!("backing store released {} times", total));
